@@ -2,10 +2,10 @@ package eng
 
 import (
 	"crypto/sha256"
-	"os"
 	"encoding/hex"
 	"fmt"
 	"math/rand"
+	"os"
 	"strings"
 	"time"
 
@@ -49,6 +49,7 @@ type blockTrace struct {
 	memEnd   string // normalised H1 digest after EndBlock
 	phase    string
 	logs     []string
+	memRaw   string // debug only
 }
 
 func hashBytes(b []byte) string {
@@ -93,6 +94,9 @@ func replayBlock(c *sim.Chain, b blockScript) (blockTrace, bool) {
 	t.valUpd = valUpdDigest(eb.ValidatorUpdates)
 	t.storeDig = oracleStoreDigest(c)
 	t.memEnd = hashBytes([]byte(normDigest(string(oraclekeeper.VerifOracleDump()))))
+	if os.Getenv("VERIF_C14_DEBUG") != "" {
+		t.memRaw = normDigest(string(oraclekeeper.VerifOracleDump()))
+	}
 	if !c.Commit() {
 		return t, false
 	}
@@ -243,6 +247,12 @@ func runOracle14(j Job) *Result {
 				what, detail := diffTrace(ref[b], got[b])
 				if what == "" {
 					if ref[b].memEnd != got[b].memEnd {
+						if !memOnly && os.Getenv("VERIF_C14_DEBUG") == "mem" {
+							if f, e := os.OpenFile("/var/tmp/c14mem.log", os.O_APPEND|os.O_CREATE|os.O_WRONLY, 0o644); e == nil {
+								fmt.Fprintf(f, "MEMDIFF %s restart %v block %d\n--- ref\n%s\n--- got\n%s\n", hist, hs, b+1, ref[b].memRaw, got[b].memRaw)
+								f.Close()
+							}
+						}
 						memOnly = true
 					}
 					continue
@@ -264,6 +274,10 @@ func runOracle14(j Job) *Result {
 		}
 		res.Histories++
 		res.Blocks += int64(H)
+		res.Counters["restart-points-with-an-open-round-holding-reports-of-one-validator-from-two-blocks"] += int64(o.repeatReports)
+		if o.repeatReports > 0 {
+			res.Counters["histories-with-repeat-reports-in-open-rounds"]++
+		}
 		if len(st.Samples) < 3 {
 			st.Sample(map[string]interface{}{"history": hist, "blocks": H, "restart_points": len(restartSets), "max_nonce": maxNonce, "txs": countTxs(script), "first_taint_block": taintBlock})
 		}
